@@ -22,7 +22,7 @@ func init() { core.Register(check{}) }
 func (check) ID() string    { return "C01" }
 func (check) Level() string { return "exploration" }
 func (check) Rule() string {
-	return "for every shape in Scalars u T(1) u T(2) (thorough: + T(3) subset), container size n in 0..3 (position-distinct elements), plus a variant with the first field of every struct absent: every root-to-node path and every invalid last step (absent field/index=len,len+1,-1,2^31/absent key; every wrong path kind; absent-inner) through Node/Value GetByPath (id- and name-addressed, bin-key twins), the stepwise API (Field/FieldByName/Index/GetByStr/GetByInt/GetByRaw), bulk lookups (Fields/Indexes/Gets/GetMany/GetTree: every ordered selection of <=3 children + an absent one), Children (lazy/recursive), Foreach/ForeachKV, Interface/List/StrMap/IntMap/InterfaceMap/Len/typed casts, under every combination of the read options; oracle = type, value and byte span (offset+length inside the input) of ref/tbin. A case = (shape, size, api family); non-trivial if it performed at least one API call on a container or scalar; api_calls counts individual calls. Later additions: lookups in two hops from every inner node, mixed key spellings in bulk lookups, containers of more than 64 children, dirty result slices (scalar children of a recursive listing must carry no children). Thorough tier: container sizes 4, 5, 16, 17 (shapes of depth <= 2 for 16 / 17). Round 10: bulk requests that mix field ids with a path of another kind."
+	return "for every shape in Scalars u T(1) u T(2) (thorough: + T(3) subset), container size n in 0..3 (position-distinct elements), plus a variant with the first field of every struct absent: every root-to-node path and every invalid last step (absent field/index=len,len+1,-1,2^31/absent key; every wrong path kind; absent-inner) through Node/Value GetByPath (id- and name-addressed, bin-key twins), the stepwise API (Field/FieldByName/Index/GetByStr/GetByInt/GetByRaw), bulk lookups (Fields/Indexes/Gets/GetMany/GetTree: every ordered selection of <=3 children + an absent one), Children (lazy/recursive), Foreach/ForeachKV, Interface/List/StrMap/IntMap/InterfaceMap/Len/typed casts, under every combination of the read options; oracle = type, value and byte span (offset+length inside the input) of ref/tbin. A case = (shape, size, api family); non-trivial if it performed at least one API call on a container or scalar; api_calls counts individual calls. Later additions: lookups in two hops from every inner node, mixed key spellings in bulk lookups, containers of more than 64 children, dirty result slices (scalar children of a recursive listing must carry no children). Thorough tier: container sizes 4, 5, 16, 17 (shapes of depth <= 2 for 16 / 17). Round 10: bulk requests that mix field ids with a path of another kind. Round 11: 1100-element containers of structs / lists; raw string keys with a wrong length prefix."
 }
 func (check) Assumptions() []string {
 	return []string{"reference = ref/tbin span table (cross-checked against cloudwego/gopkg at self-check)", "absent element: any error result is accepted (the API uses ErrNotFound and ErrInvalidParam interchangeably for out-of-range indexes); present element: must be a non-error result with exact type+span", "BYTE values are presented as uint8 by the library (Interface() -> int 0..255)"}
